@@ -3,7 +3,9 @@
 Streams
   substore        random histories over sub/unsub/unsuball + every kind of Iterate query, stats (valid names only)
   substore-shared the same machinery biased to shared subscriptions (also the store-level stream of C11)
-  substore-odd    syntactically odd filters / topics (a/#/b, a+, wildcard levels in topic names): model-vs-code only
+  substore-odd    syntactically odd filters / names / topics (a/#/b, a+, $share/g, wildcard levels in topic names): no crash;
+                  answers for odd FILTERS are still checked (a level is a wildcard only if it is exactly + or #, a non-final
+                  # never matches); answers for odd TOPIC names are compared model-vs-code only
   topicmatch      packets.TopicMatch byte scanner against an independent Python matcher (see c02_topicmatch.py)
 
 The predicate is an independent Python reference of the PROPERTY (a dict keyed by (client, share, filter) and a
@@ -14,7 +16,8 @@ from .. import core
 PROP = "C02"
 MODULE = "GmqttVerif.Properties.C02"
 NS = "GmqttVerif.SubStore."
-THEOREMS = [NS + n for n in ["substore_refines_map", "matchTopic_exact", "find_exact", "client_listing_exact",
+THEOREMS = [NS + n for n in ["substore_refines_map", "substore_rel", "substore_abs_eq_map", "iterate_all_exact",
+                             "matchTopic_exact", "matchTopic_exact_nonshared", "find_exact", "client_listing_exact",
                              "stats_exact"]]
 COMPS = ["substore"]
 
@@ -137,20 +140,52 @@ class Ref:
             return f"{g or '-'} {t or '-'}"
         return None
 
+def classify(ops, i, got, want):
+    """which documented finding of the unchanged tree a failing answer looks like (tag in the reason text, used by RECOGNISERS)"""
+    f = ops[i].split(" ")
+    if got.startswith("panic"):
+        if f[0] == "get" and f[2].startswith("$share/") and len(f[2].split("/", 2)) < 3:
+            return "substore-matchname-panic"
+        return "unclassified"
+    if f[0] == "match" and f[2].startswith("$") and want is not None:
+        extra = set(got.split(" ", 1)[1].split(";") if " " in got else []) - set(want.split(" ", 1)[1].split(";") if " " in want else [])
+        if extra and all(e.split(",")[1] != "-" and e.split(",")[2].split("/")[0] in ("+", "#") for e in extra):
+            return "substore-shared-dollar-topic"
+    if f[0] == "sub" and f[2] != "-" and got == "ok existed" and want == "ok new":
+        return "F20"
+    shared = {}           # client -> {filter -> set(groups)} as subscribed so far (never pruned: a heuristic)
+    f19 = f20 = False
+    for op in ops[:i + 1]:
+        g = op.split(" ")
+        if g[0] == "sub" and g[2] != "-":
+            d = shared.setdefault(g[1], {}).setdefault(g[3], set())
+            d.add(g[2])
+            if len(d) > 1:
+                f20 = True
+        elif g[0] == "unsuball" and shared.get(g[1]):
+            f19 = True
+    return "F19" if f19 else "F20" if f20 else "unclassified"
+
 def predicate(ops, out):
     """the property on the implementation's outputs: every answer equals the reference map's answer"""
     if len(out) != len(ops) or (out and out[0].startswith("CRASH")):
         return "implementation crashed or hung: " + (out[0] if out else "")
     ref = Ref()
-    for op, o in zip(ops, out):
+    for i, (op, o) in enumerate(zip(ops, out)):
         f = op.split(" ")
         if o.startswith("panic"):
-            return f"panic in `{op}`"
+            return f"[{classify(ops, i, o, None)}] panic in `{op}`"
         if o in ("err", "bad-op"):
             return f"unexpected result `{o}` for `{op}`"
         want = ref.expect(f)
         if want is not None and want != o:
-            return f"`{op}` answered `{o}`; the stored subscriptions say `{want}`"
+            return f"[{classify(ops, i, o, want)}] `{op}` answered `{o}`; the stored subscriptions say `{want}`"
+        if want is None and f[0] == "match" and f[2].startswith("$") and " " in o:
+            # odd topic name (wildcard characters): only [MQTT-4.7.2-1] is demanded
+            bad = [e for e in o.split(" ", 1)[1].split(";") if e.split(",")[2].split("/")[0] in ("+", "#")]
+            if bad:
+                return (f"[substore-shared-dollar-topic] `{op}` returned {bad[0]}: a filter starting with a wildcard "
+                        "matched a topic starting with $")
     return None
 
 def predicate_odd(ops, out):
@@ -389,7 +424,7 @@ def substore_streams(tier):
         (core.Stream("substore", "substore", gen, predicate, prunes_then_queries, keep_prefix=1), 12000 if q else 400000),
         (core.Stream("substore-shared", "substore", gen_shared, predicate, shared_leave_then_query, keep_prefix=1),
          6000 if q else 200000),
-        (core.Stream("substore-odd", "substore", gen_odd, predicate_odd, None, keep_prefix=1), 2000 if q else 50000),
+        (core.Stream("substore-odd", "substore", gen_odd, predicate, None, keep_prefix=1), 2000 if q else 50000),
     ]
 
 def streams(tier):
@@ -412,6 +447,14 @@ def _comps():
 COMPS = _comps()
 if "topicmatch" in COMPS:
     THEOREMS = THEOREMS + [NS + "topicMatch_total", NS + "topicMatch_bytes_spec"]
+
+def _tag(t):
+    return lambda info: info.get("kind") == "predicate" and (info.get("why") or "").startswith("[" + t + "]")
+
+# recogniser names for known-findings.txt (`finding: property=C02 id=F19 match=f19_unsuball_shared …`); the lead decides
+RECOGNISERS = {"f19_unsuball_shared": _tag("F19"), "f20_two_groups_one_filter": _tag("F20"),
+               "shared_dollar_topic": _tag("substore-shared-dollar-topic"),
+               "matchname_short_share_name": _tag("substore-matchname-panic")}
 
 def run(r):
     return core.standard_run(r, __import__(__name__, fromlist=["x"]))
